@@ -108,15 +108,16 @@ class G:
         if c < 0.43:
             a, qa, ka = self.nexp(d + 1, allow_var=False)
             b, qb, kb = self.nexp(d + 1, allow_var=False)
-            if ka == "str":
+            # (a cell is text: equals() reads both sides as numbers when it can, whatever their types; half of the time the cell is converted first)
+            if ka == "str" and r.random() < 0.5:
                 a, qa = f"int({a})", f"(NInt {qa})"
-            if kb == "str":
+            if kb == "str" and r.random() < 0.5:
                 b, qb = f"int({b})", f"(NInt {qb})"
             return (f"{r.choice(['eq', 'equals'])}({a}, {b})", f"(BEq {qa} {qb})")
         if c < 0.5:
             a, qa, ka = self.nexp(d + 1, allow_lit=False)
             b, qb, kb = self.nexp(d + 1)
-            if "float" in (ka, kb) and "str" in (ka, kb):      # "15" == 15.0 is False in Python: outside the typed fragment
+            if "float" in (ka, kb) and "str" in (ka, kb) and r.random() < 0.5:      # "15" == 15.0 is False ('15' != '15.0' and "15" != 15.0): modelled; half of the time converted first
                 if ka == "str":
                     a, qa = f"int({a})", f"(NInt {qa})"
                 else:
@@ -373,8 +374,16 @@ def corner_programs():
     ]
 
 
-def gen_rows(rng, echo=False):
-    """echo: some data rows repeat the header row's own t / u cells (values first seen on line 0 recur)"""
+def empties_ok(prog):
+    """an empty numeric cell makes subtract() / multiply() raise and between() answer by rules of its own: files for csvpaths that
+    use none of them may have empty n / m cells (add(), int(), sum(), counter() read '' as 0; comparisons and equality fall back to text)"""
+    text = " ".join(c[0] for c in prog["comps"])
+    return not any(f in text for f in ("subtract(", "multiply(", "between("))
+
+
+def gen_rows(rng, echo=False, empties=False):
+    """echo: some data rows repeat the header row's own t / u cells (values first seen on line 0 recur);
+    empties: some n / m cells are empty"""
     rows = [HDR[:]]
     if echo and rng.random() < 0.25:
         rows = [[]] * rng.choice([1, 2]) + rows       # the file begins with blank lines (only for csvpaths that may scan the header row)
@@ -385,6 +394,11 @@ def gen_rows(rng, echo=False):
         n = rng.choice(NUMS)
         m = n if rng.random() < 0.3 else rng.choice(NUMS)
         row = [f"r{i}", str(n), str(m), rng.choice(WORDS), rng.choice(WORDS)]
+        if empties:
+            if rng.random() < 0.15:
+                row[1] = ""
+            if rng.random() < 0.15:
+                row[2] = ""
         if echo and rng.random() < 0.4:
             row[rng.choice([3, 4])] = rng.choice(["t", "u"])
         if rng.random() < 0.6:
